@@ -86,6 +86,11 @@ def model_check(ctx, cov, workers):
             if r.timed_out:
                 if ctx.quick:
                     raise ToolError(f"model check {cfg} timed out after {to}s ({r.distinct} states)")
+                # TLC prints the totals only at the end: take the last progress line
+                pm = re.findall(r"Progress\(\d+\) at [^:]*:[^:]*:[^:]*: ([\d,]+) states generated.*?([\d,]+) distinct states found", r.out)
+                if pm:
+                    r.generated, r.distinct = (int(x.replace(",", "")) for x in pm[-1])
+                    runs[-1].update(states=r.distinct, transitions=r.generated)
                 log(f"{cfg}: timed out after {to}s with {r.distinct} distinct states (counted as partial)")
                 runs[-1]["partial"] = True
                 states += r.distinct
